@@ -344,19 +344,19 @@ def handle (j : Json) : M Json := do
       match dim with
       | 1 => do
           let r ← parseInts mj
-          match Prio.compress0 method [r] with
-          | some v => pure (Json.mkObj [("r", intsJ v)])
-          | none => throw "bad method"
+          match Prio.compress0 method [r], Prio.compress0Spec method [r] with
+          | some v, some w => pure (Json.mkObj [("r", intsJ v), ("spec", intsJ w)])
+          | _, _ => throw "bad method"
       | 2 => do
           let m ← parseMat mj
-          match Prio.compress2 method (← fldInt j "axis").toNat m with
-          | some v => pure (Json.mkObj [("r", intsJ v)])
-          | none => throw "bad method"
+          match Prio.compress2 method (← fldInt j "axis").toNat m, Prio.compress2Spec method (← fldInt j "axis").toNat m with
+          | some v, some w => pure (Json.mkObj [("r", intsJ v), ("spec", intsJ w)])
+          | _, _ => throw "bad method"
       | 3 => do
           let a ← (← jArr mj).toList.mapM parseMat
-          match Prio.compress3 method (← fldInt j "axis").toNat a with
-          | some v => pure (Json.mkObj [("r", matJ v)])
-          | none => throw "bad method"
+          match Prio.compress3 method (← fldInt j "axis").toNat a, Prio.compress3Spec method (← fldInt j "axis").toNat a with
+          | some v, some w => pure (Json.mkObj [("r", matJ v), ("spec", matJ w)])
+          | _, _ => throw "bad method"
       | _ => throw "bad dim"
   | "bridge" => do
       let vars ← (← fldArr j "vars").toList.mapM parseIdBnd
